@@ -552,20 +552,10 @@ impl SlabRouter {
             while wal_mutex.is_locked() && crate::verif_hooks::yield_point("router.wal_lock.wait") {}
             let mut wal = wal_mutex.lock();
 
-            // Log embedding delete if key is in entity index
-            if let Some(entity_id) = self.index.get(key) {
-                wal.append(&WalEntry::EmbeddingDelete { entity_id })
-                    .map_err(|e| {
-                        SlabRouterError::WalError(format!("Failed to log embedding delete: {e}"))
-                    })?;
-                wal.append(&WalEntry::EntityRemove {
-                    key: key.to_string(),
-                })
-                .map_err(|e| {
-                    SlabRouterError::WalError(format!("Failed to log entity remove: {e}"))
-                })?;
-            }
-
+            // One record per delete: replaying `MetadataDelete` also removes the
+            // key's embedding and entity index entry. Separate records for those
+            // could be applied without the metadata delete after a crash between
+            // the appends, leaving a value no write ever produced.
             // Log metadata delete (sync behavior depends on WalConfig::sync_mode)
             wal.append(&WalEntry::MetadataDelete {
                 key: key.to_string(),
@@ -683,6 +673,10 @@ impl SlabRouter {
                 }
             },
             WalEntry::MetadataDelete { key } => {
+                if let Some(entity_id) = self.index.get(key) {
+                    self.embeddings.delete(entity_id);
+                }
+                self.index.remove(key);
                 self.metadata.delete(key);
             },
             WalEntry::EmbeddingSet {
